@@ -44,7 +44,7 @@ _attempt = st.one_of(
     st.tuples(st.just("bad_plain"), st.sampled_from(["x", "y", "p", "t", "lst", "d"])),
     st.tuples(st.just("bad_ref"), st.sampled_from(["x", "y", "t", "lst"]), st.sampled_from(["p", "bind", "rx", "dep", "nlist"])),
     st.tuples(st.just("bad_ref"), st.sampled_from(["x", "y"]), st.sampled_from(["p", "bind", "rx", "dep"])),
-    st.tuples(st.just("constant"), st.sampled_from(["c", "r", "name"]), st.sampled_from(["plain", "ref"])),
+    st.tuples(st.just("constant"), st.sampled_from(["c", "r", "name", "sel"]), st.sampled_from(["plain", "ref"])),
 ).map(list)
 
 
@@ -53,7 +53,7 @@ def _case(draw):
     ctor = draw(st.lists(st.tuples(st.sampled_from(TN), st.just(None)), max_size=2, unique_by=lambda l: l[0]))
     ctor = [[n, draw(rw.ref_for(n))] for n, _ in ctor]
     return {"ctor": ctor, "prefix": draw(st.lists(_prefix_op(), max_size=8)), "attempt": draw(_attempt),
-            "route": draw(st.sampled_from(["attr", "attr", "update", "class"]))}
+            "route": draw(st.sampled_from(["attr", "attr", "update", "class", "ctor"]))}
 
 
 def strategy(tier):
@@ -82,6 +82,8 @@ def execute(case):
     for on, o in objs.items():
         for pn in o.param:
             o.param.watch(lambda *evs, on=on: log.append((on, [(e.name, e.new) for e in evs])), pn, onlychanged=False)
+    tgt.param.watch(lambda *evs: log.append(("T.sel.objects", [(e.name, e.new) for e in evs])), "sel", what="objects",
+                    onlychanged=False)
     # ---- prefix ----------------------------------------------------------------
     for op in case["prefix"]:
         k = op[0]
@@ -130,9 +132,13 @@ def execute(case):
             value = src_p
     else:
         if att[2] == "plain":
-            value = {"c": 77, "r": 78, "name": "newname"}[name]
+            value = {"c": 77, "r": 78, "name": "newname", "sel": 99}[name]
         else:
             value = srcs[0].param.v if name != "name" else srcs[0].param.s
+    if name == "sel" and att[2] == "ref":
+        value = 98
+    if route == "ctor" and kind == "constant" and name != "r":
+        route = "attr"           # constants may be given to the constructor: not a rejected attempt
     if route == "class":
         if kind == "bad_ref" or (kind == "constant" and (name != "r" or att[2] == "ref")) or name in ("lst", "d", "t"):
             # references are not resolved at class level (a Parameter object assigned there re-declares the parameter) and
@@ -149,15 +155,25 @@ def execute(case):
                 for what, ws in whats.items():
                     snap[("watchers", on, pn, what)] = len(ws)
         snap[("cls_defaults",)] = tuple(id(getattr(T, pn)) for pn in T.param)
+        snap[("metadata", "T.sel")] = (tuple(tgt.param.sel.objects), tuple(T.param.sel.objects))
         snap[("refs",)] = tuple(sorted((n, id(r)) for n, r in tgt._param__private.refs.items()))
         snap[("async_refs",)] = tuple(sorted(tgt._param__private.async_refs))
         return snap
 
+    kw2 = {}
+    if route == "ctor":
+        # a second target built with the same (valid) links plus the rejected keyword; the reference objects are
+        # created before the snapshot (building an rx expression registers its own watchers on the sources)
+        for n, spec in case["ctor"]:
+            kw2[n] = rw.build_ref(spec, srcs)[0]
+        kw2[name] = value
     before = snapshot()
     values_before = {(on, pn): o.param.get_value_generator(pn) for on, o in objs.items() for pn in o.param}   # keep alive
     nlog = len(log)
     try:
-        if route == "attr":
+        if route == "ctor":
+            T(**kw2)
+        elif route == "attr":
             setattr(tgt, name, value)
         elif route == "update":
             tgt.param.update(**{name: value})
@@ -176,7 +192,8 @@ def execute(case):
     diff = {k: (before.get(k), after.get(k)) for k in set(before) | set(after) if before.get(k) != after.get(k)}
     if diff:
         kinds = sorted({k[0] for k in diff})
-        clause = {"value": "C02.value_changed", "watchers": "C02.watchers_changed", "refs": "C02.links_changed"}.get(kinds[0], "C02.state_changed")
+        clause = {"value": "C02.value_changed", "watchers": "C02.watchers_changed", "refs": "C02.links_changed",
+                  "metadata": "C02.metadata_changed"}.get(kinds[0], "C02.state_changed")
         if "refs" in kinds:
             clause = "C02.links_changed"
         res.fail(clause, f"{att!r} via {route} raised {type(raised).__name__} but the observable state changed: "
